@@ -89,6 +89,23 @@ def check(ctx):
                         ctx.ob("dispatch.subclass-first", gat, "isinstance(field, %s) before isinstance(field, %s)" % (b, a), False,
                                "%s is tested after its base %s and is shadowed" % (b, a), node=tb)
 
+    # names that become stub text must be identifiers: __name__ always is, __qualname__ can contain "<locals>"
+    for f in stub_fns:
+        for x in ast.walk(f.node):
+            q = None
+            if isinstance(x, ast.Attribute) and x.attr == "__qualname__":
+                q = x
+            if isinstance(x, ast.Call) and isinstance(x.func, ast.Name) and x.func.id == "getattr" and len(x.args) >= 2 \
+                    and isinstance(x.args[1], ast.Constant) and x.args[1].value == "__qualname__":
+                q = x
+            if q is not None:
+                ctx.ob("names.identifier", f, q, False,
+                       "%s renders a class through __qualname__, which is not an identifier for function-local classes "
+                       "('f.<locals>.C'): the stub is not valid Python for them" % f.qualname, node=q)
+    ctx.ob("names.identifier", gat, "class names come from __name__", any(
+        isinstance(x, ast.Attribute) and x.attr == "__name__" for x in ast.walk(gat.node)),
+        "class names are rendered from __name__ (always an identifier)", nontrivial=False)
+
     # ---------------------------------------------------------------- C20.3 purity
     state = an.summary(STATE)
     fstate = an.summary(FIELDSTATE)
@@ -112,7 +129,29 @@ def check(ctx):
     for f, n, ev in impure:
         ctx.ob("pure", f, n.ast if n.ast is not None else n.stmt, False,
                "%s in %s: generating a stub alters the schema/configuration it describes (%s)" % (ev[0], f.qualname, ev[2]), node=n)
-    # args list from getfullargspec is a fresh list: mutation of it is fine (not a parameter)
+    # results of memoised functions are shared between calls: mutating them in place is a hidden side effect
+    cached = [f for f in an.fns() if any("lru_cache" in d or d.endswith("cache") or d.endswith("cache()") for d in f.decorators)]
+    from .common import MUTATING_METHODS
+    for f in stub_fns:
+        gf = an.cfg(f)
+        for n in gf.nodes:
+            recv = None
+            if n.kind == "call" and isinstance(n.ast.func, ast.Attribute) and n.ast.func.attr in MUTATING_METHODS and isinstance(n.ast.func.value, ast.Name):
+                recv = n.ast.func.value
+            elif n.kind == "assign" and isinstance(n.ast, ast.AugAssign) and isinstance(n.ast.target, ast.Name):
+                recv = n.ast.target
+            elif n.kind == "assign" and isinstance(n.ast, ast.Assign) and isinstance(n.ast.targets[0], ast.Subscript) and isinstance(n.ast.targets[0].value, ast.Name):
+                recv = n.ast.targets[0].value
+            if recv is None:
+                continue
+            for kind, payload in value_sources(f, recv, n):
+                src = payload[0] if kind in ("unpack", "iter") else payload
+                if isinstance(src, ast.Call):
+                    nn = gf.nodes_for(src)
+                    if nn and any(c in cached for c in an.callees(f, nn[0])):
+                        ctx.ob("pure.cached-result-mutated", f, n.ast, False,
+                               "%s mutates in place a value obtained from the memoised %s: the next stub generated in this process starts "
+                               "from the already modified value" % (f.qualname, [c.qualname for c in an.callees(f, nn[0]) if c in cached][0]), node=n)
 
     # ---------------------------------------------------------------- C20.4 partition
     g = an.cfg(gs)
@@ -194,7 +233,8 @@ def check(ctx):
     rendered = any(n.kind == "call" and gma in an.callees(gs, n) for n in g.nodes)
     ctx.ob("methods.rendered", gs, "get_method_annotation(key, field) for every method", rendered, "each instance method is rendered" if rendered else
            "instance methods are no longer rendered")
-    uses_spec = any(isinstance(x, ast.Call) and ast.unparse(x.func).endswith("getfullargspec") for x in ast.walk(gma.node))
+    uses_spec = any(isinstance(x, ast.Call) and (ast.unparse(x.func).endswith("getfullargspec") or ast.unparse(x.func).endswith("signature"))
+                    for f2 in an.reachable_fns([gma]) for x in ast.walk(f2.node))
     covers = all(any(isinstance(x, ast.Name) and x.id == nm for x in ast.walk(gma.node)) for nm in ("varargs", "varkw", "kwonlyargs"))
     ctx.ob("methods.parameter-kinds", gma, "positional / *args / keyword-only / **kwargs", uses_spec and covers,
            "every parameter kind reported by getfullargspec is rendered" if uses_spec and covers else
